@@ -3,6 +3,7 @@ package props
 import (
 	"fmt"
 	"go/types"
+	"strings"
 
 	"verif/third_party/xtools/go/ssa"
 
@@ -207,8 +208,42 @@ func isCHFieldObj(m *echModel, e *core.Expr) bool {
 	return false
 }
 
+// connAccessorsCopy: exported methods of Conn never hand out a slice that is
+// part of the stored hellos: the retry rule (C06) compares the second inner
+// hello with c.inner's ALPN list, and the caller may sort or edit what it got.
+func connAccessorsCopy(p *core.Prog, r *core.Run, m *echModel, rule string) {
+	n := 0
+	for _, fn := range p.PkgFuncs(Ech) {
+		if fn.Parent() != nil || fn.Signature.Recv() == nil || fn.Object() == nil || !fn.Object().Exported() {
+			continue
+		}
+		if !strings.HasSuffix(fn.Signature.Recv().Type().String(), "ech.Conn") || fn.Signature.Results().Len() == 0 {
+			continue
+		}
+		for i := 0; i < fn.Signature.Results().Len(); i++ {
+			if _, isSlice := fn.Signature.Results().At(i).Type().Underlying().(*types.Slice); !isSlice {
+				continue
+			}
+			for k, ret := range core.Returns(fn) {
+				n++
+				shared := ""
+				for _, a := range p.X(ret.Results[i]).Alts() {
+					if a.Op == "field" && a.Any(func(x *core.Expr) bool {
+						return x.Op == "field" && (x.Obj == m.fConn["inner"] || x.Obj == m.fConn["outer"])
+					}) {
+						shared = short(a)
+					}
+				}
+				r.Check(rule, fmt.Sprintf("%s:return#%d", p.FuncName(fn), k), shared == "", p.InstrPos(ret), "the slice returned to the caller is not part of the stored hellos %s", shared)
+			}
+		}
+	}
+	r.Check(rule, "accessors", n >= 2, p.Pos(m.newConn.Pos()), "slice-valued accessors of Conn examined (%d returns)", n)
+}
+
 // c01Route: NewConn stores the handler's results and forwards the right hello.
 func c01Route(p *core.Prog, r *core.Run, m *echModel, rule string) {
+	connAccessorsCopy(p, r, m, rule)
 	nc := m.newConn
 	isHandle := func(e *core.Expr, idx string) bool {
 		return e.Op == "ext" && e.Name == idx && e.Args[0].Op == "call" && e.Args[0].Fn == m.handle
